@@ -16,16 +16,17 @@ import (
 
 // Region is the shadow page-table entry of one allocation seen at the memcall seam.
 type Region struct {
-	N        int
-	Addr     uintptr
-	Len      int
-	Mapped   bool
-	Locked   bool
-	Prot     string // "rw" "r" "none"
-	Secret   bool   // held caller-supplied or handed-out secret bytes at some point
-	NonZeroAtUnlock bool
-	NonZeroAtFree   bool
-	UnlockFailed, FreeFailed bool // the injected failure hit this region's own unlock/free
+	N                        int
+	Addr                     uintptr
+	Len                      int
+	Mapped                   bool
+	Locked                   bool
+	Prot                     string // "rw" "r" "none"
+	Secret                   bool   // held caller-supplied or handed-out secret bytes at some point
+	NonZeroAtUnlock          bool
+	NonZeroAtFree            bool
+	UnlockFailed, FreeFailed bool   // the injected failure hit this region's own unlock/free
+	RealFreeErr              string // the real free of this region failed (not injected)
 }
 
 // MemSpy is the interposed memcall implementation: real system calls + shadow table + fault injector.
@@ -172,6 +173,7 @@ func (m *MemSpy) Free(b []byte) error {
 		return errMem
 	}
 	if err := memcall.Free(b); err != nil {
+		r.RealFreeErr = err.Error()
 		return err
 	}
 	r.Mapped, r.Locked = false, false
